@@ -60,34 +60,44 @@ KNOWN_SIG_COM = "com-nan:sum-y-zero-and-sum-iy-zero"
 
 # ----------------------------------------------------------------------------- pinned source (weak translator)
 
-PINNED_CALC_STATS = [
-    "y_orig = np.copy(y)",
-    "if edge_count is not None:\n    left_x = np.mean(x[:edge_count])\n    left_y = np.mean(y[:edge_count])\n    right_x = np.mean(x[-edge_count:])\n"
-    "    right_y = np.mean(y[-edge_count:])\n    m = (right_y - left_y) / (right_x - left_x)\n    b = left_y - m * left_x\n    y = y - (m * x + b)\n"
-    "    fields['lin_bkg'] = {'m': m, 'b': b}",
-    "argmin_y = np.argmin(y)",
-    "argmax_y = np.argmax(y)",
-    "fields['min'] = (x[argmin_y], y_orig[argmin_y])",
-    "fields['max'] = (x[argmax_y], y_orig[argmax_y])",
-    "(fields['com'],) = np.interp(center_of_mass(y), np.arange(len(x)), x)",
-    "mid = (np.max(y) + np.min(y)) / 2",
-    "crossings = np.where(np.diff((y > mid).astype(int)))[0]",
-    "_cen_list = []",
-    "for cr in crossings.ravel():\n    _x = x[cr:cr + 2]\n    _y = y[cr:cr + 2] - mid\n    dx = np.diff(_x)[0]\n    dy = np.diff(_y)[0]\n    m = dy / dx\n"
-    "    _cen_list.append(-_y[0] / m + _x[0])",
-    "if _cen_list:\n    fields['cen'] = np.mean(_cen_list)\n    fields['crossings'] = np.array(_cen_list)\n    if len(_cen_list) >= 2:\n"
-    "        fields['fwhm'] = np.abs(fields['crossings'][-1] - fields['crossings'][0], dtype=float)",
-    "Stats = namedtuple('Stats', field_names=fields.keys())",
-    "stats = Stats(**fields)",
-    "return stats",
-]
-PINNED_COM = [
-    "normalizer = np.sum(input, labels, index)",
-    "grids = np.ogrid[[slice(0, i) for i in input.shape]]",
-    "results = [np.sum(input * grids[dir].astype(float), labels, index) / normalizer for dir in range(input.ndim)]",
-    "if np.isscalar(results[0]):\n    return tuple(results)",
-    "return [tuple(v) for v in np.array(results).T]",
-]
+PINNED_CALC_STATS = ['y_orig = np.copy(y)',
+ 'if edge_count is not None:\n'
+ '    left_x = np.mean(x[:edge_count])\n'
+ '    left_y = np.mean(y[:edge_count])\n'
+ '    right_x = np.mean(x[-edge_count:])\n'
+ '    right_y = np.mean(y[-edge_count:])\n'
+ '    m = (right_y - left_y) / (right_x - left_x)\n'
+ '    b = left_y - m * left_x\n'
+ '    y = y - (m * x + b)\n'
+ "    fields['lin_bkg'] = {'m': m, 'b': b}",
+ 'argmin_y = np.argmin(y)',
+ 'argmax_y = np.argmax(y)',
+ "fields['min'] = (x[argmin_y], y_orig[argmin_y])",
+ "fields['max'] = (x[argmax_y], y_orig[argmax_y])",
+ "fields['com'], = np.interp(center_of_mass(y), np.arange(len(x)), x)",
+ 'mid = (np.max(y) + np.min(y)) / 2',
+ 'crossings = np.where(np.diff((y > mid).astype(int)))[0]',
+ '_cen_list = []',
+ 'for cr in crossings.ravel():\n'
+ '    _x = x[cr:cr + 2]\n'
+ '    _y = y[cr:cr + 2] - mid\n'
+ '    dx = np.diff(_x)[0]\n'
+ '    dy = np.diff(_y)[0]\n'
+ '    m = dy / dx\n'
+ '    _cen_list.append(-_y[0] / m + _x[0])',
+ 'if _cen_list:\n'
+ "    fields['cen'] = np.mean(_cen_list)\n"
+ "    fields['crossings'] = np.array(_cen_list)\n"
+ '    if len(_cen_list) >= 2:\n'
+ "        fields['fwhm'] = np.abs(fields['crossings'][-1] - fields['crossings'][0], dtype=float)",
+ "Stats = namedtuple('Stats', field_names=fields.keys())",
+ 'stats = Stats(**fields)',
+ 'return stats']
+PINNED_COM = ['normalizer = np.sum(input, labels, index)',
+ 'grids = np.ogrid[[slice(0, i) for i in input.shape]]',
+ 'results = [np.sum(input * grids[dir].astype(float), labels, index) / normalizer for dir in range(input.ndim)]',
+ 'if np.isscalar(results[0]):\n    return tuple(results)',
+ 'return [tuple(v) for v in np.array(results).T]']
 
 
 def extract(ctx):
@@ -302,20 +312,28 @@ def oracle(case, obs):
             bad.append((f"com-not-finite:{ectag}:sum-y-{'zero' if s == 0 else 'nonzero'}", f"com is {obs['com']} although sum(y)={s}, sum(i*y)={w}"))
     elif not (lo_x <= com <= hi_x):
         bad.append((f"com-out-of-range:{ectag}", f"com={com} outside the x range [{lo_x}, {hi_x}]"))
-    # crossings: each between adjacent samples straddling the half maximum
+    # crossings: each between adjacent samples straddling the half maximum.  The statement does not say whether a sample
+    # exactly AT the half-maximum counts as above or below, so: every reported crossing must lie in the interval of a pair
+    # that straddles weakly (level between the two unequal values); every pair that straddles strictly must hold one.
     mid = (max(yp) + min(yp)) / 2
-    pairs = [i for i in range(n - 1) if (yp[i] > mid) != (yp[i + 1] > mid)]
+    weak = [i for i in range(n - 1) if yp[i] != yp[i + 1] and min(yp[i], yp[i + 1]) <= mid <= max(yp[i], yp[i + 1])]
+    strict = [i for i in range(n - 1) if (yp[i] - mid) * (yp[i + 1] - mid) < 0]
     cr = obs["crossings"]
     crv = [] if cr is None else [_val(c) for c in cr]
     if any(c is None for c in crv):
         bad.append((f"crossing-not-finite:{ectag}", f"crossings {cr} contain a non-finite value"))
         crv = [c for c in crv if c is not None]
     if decisions_reliable:
-        if len(crv) != len(pairs):
-            bad.append((f"crossing-count:{ectag}:{'fewer' if len(crv) < len(pairs) else 'more'}", f"{len(crv)} crossings reported but {len(pairs)} adjacent pairs straddle the half-maximum {mid}"))
+        inside = lambda c, i: min(xs[i], xs[i + 1]) - tol <= c <= max(xs[i], xs[i + 1]) + tol  # noqa: E731
+        if not len(strict) <= len(crv) <= len(weak):
+            bad.append((f"crossing-count:{ectag}:{'fewer' if len(crv) < len(strict) else 'more'}", f"{len(crv)} crossings reported but {len(strict)} adjacent pairs straddle the half-maximum {mid} strictly and {len(weak)} weakly"))
         for c in crv:
-            if not any(min(xs[i], xs[i + 1]) - tol <= c <= max(xs[i], xs[i + 1]) + tol for i in pairs):
-                bad.append((f"crossing-not-between-straddling-samples:{ectag}", f"crossing {c} lies in no interval [x_i, x_i+1] whose samples straddle the half-maximum {mid} (pairs {pairs[:6]})"))
+            if not any(inside(c, i) for i in weak):
+                bad.append((f"crossing-not-between-straddling-samples:{ectag}", f"crossing {c} lies in no interval [x_i, x_i+1] whose samples straddle the half-maximum {mid} (pairs {weak[:6]})"))
+                break
+        for i in strict:
+            if not any(inside(c, i) for c in crv):
+                bad.append((f"straddling-pair-without-crossing:{ectag}", f"samples {i},{i + 1} straddle the half-maximum {mid} but no crossing is reported between x={xs[i]} and x={xs[i + 1]}"))
                 break
         if len(set(yp)) > 1 and not crv:
             bad.append((f"no-crossing-for-nonconstant-y:{ectag}", "y is not constant but no crossing is reported"))
